@@ -107,6 +107,7 @@ def build(ctx, prop):
     t0 = time.time()
     targets = list(prop.COQ_TARGETS) + ['driver']
     rc, out = sh([V + '/tools/build.sh'] + targets, timeout=3000)
+    os.makedirs(V + '/build/tmp', exist_ok=True)
     res = {'rc': rc, 'log': out[-6000:], 'gen_ok': 'GEN-FAILED' not in out}
     res['gen_error'] = ''
     if not res['gen_ok']:
@@ -146,16 +147,25 @@ def build(ctx, prop):
         if f.startswith('props/'): names += [n for _, n in found]
     res['obligations'], res['discharged'], res['theorems'] = obl, dis, names
     res['gate'] = gate_grep(cone)
-    # Print Assumptions output of the property file
+    # Print Assumptions output of the property file: printed by coqc while make compiles it
+    # (make -Otarget groups each target's output); cached while the .vo stays up to date
     res['assumptions'] = []
+    os.makedirs(V + '/build/log', exist_ok=True)
     if res['proofs_ok']:
         for t in prop.COQ_TARGETS:
             if not t.startswith('props/'): continue
-            os.makedirs(V + '/build/tmp', exist_ok=True)
-            rc2, out2 = sh(f"cd {B} && timeout 600 coqc -Q . Pico {t[:-1]} -o {V}/build/tmp/{os.path.basename(t)}", timeout=700)
-            if rc2 != 0:
-                res['proofs_ok'] = False; res['errors'].append({'file': t[:-1], 'line': 0, 'msg': out2[-400:]})
-            res['assumptions'] += parse_assumptions(out2)
+            cache = f"{V}/build/log/assumptions_{os.path.basename(t)[:-3]}.txt"
+            m = re.search(r'COQC ' + re.escape(t[:-1]) + r'\n(.*?)(?=\nCOQC |\nmake|\Z)', out, re.S)
+            if m and ('Axioms:' in m.group(1) or 'Closed under the global context' in m.group(1)):
+                open(cache, 'w').write(m.group(1))
+            if not os.path.exists(cache) or os.path.getmtime(cache) < os.path.getmtime(os.path.join(B, t)) - 5:
+                rc2, out2 = sh(f"cd {B} && timeout 1200 coqc -Q . Pico {t[:-1]} -o {V}/build/tmp/{os.path.basename(t)}", timeout=1300)
+                if rc2 != 0:
+                    res['proofs_ok'] = False; res['errors'].append({'file': t[:-1], 'line': 0, 'msg': out2[-400:]})
+                else:
+                    open(cache, 'w').write(out2)
+            if os.path.exists(cache):
+                res['assumptions'] += parse_assumptions(open(cache).read())
     res['assumptions'] = sorted(set(res['assumptions']))
     res['build_s'] = round(time.time() - t0, 1)
     return res
